@@ -5,6 +5,7 @@ CONSTANTS
   KeepHist = TRUE
   GrowLen = 150
   AscSizes = {}
+  Mut = {}
   BatchPct = 0
   GenLen = 300
 SPECIFICATION GenSpec
